@@ -9,9 +9,9 @@
    status and error count generatecmd.Run returned. The same invariants as in the model-checking configs are
    evaluated in every state. The trace is accepted iff all lines can be consumed (POSTCONDITION on the
    high-water mark of the line index, TLC register 1).                                                   *)
-EXTENDS Generate, TLCExt
+EXTENDS Generate
 
-Trace == ndJsonDeserialize("trace.ndjson")
+Log == ndJsonDeserialize("trace.ndjson")
 VARIABLE ti
 tvars == <<vars, ti>>
 
@@ -27,7 +27,7 @@ TraceInit == /\ ti = 1
              /\ lbl = [op |-> "init"]
              /\ TLCSet(1, 1)
 
-L == Trace[ti]
+L == Log[ti]
 FilesOf(l) == { [dir |-> l.files[j].dir, name |-> l.files[j].name, c |-> l.files[j].c, m |-> l.files[j].m] : j \in 1..Len(l.files) }
 
 \* a new run may only start when the previous one has terminated
@@ -64,7 +64,7 @@ Logged(l) ==
 
 Silent == Spawn \/ WalkClose \/ EventsDrained \/ PostConsume \/ \E i \in 1..Len(evs) : WGen(i)
 
-TraceNext == \/ /\ ti <= Len(Trace)
+TraceNext == \/ /\ ti <= Len(Log)
                 /\ Logged(L)
                 /\ ti' = ti + 1
                 /\ TLCSet(1, IF ti + 1 > TLCGet(1) THEN ti + 1 ELSE TLCGet(1))
@@ -73,6 +73,6 @@ TraceNext == \/ /\ ti <= Len(Trace)
 
 TraceView == <<vars, ti>>
 \* all lines consumed; the high-water mark locates the first line no behaviour of the specification explains
-TraceAccepted == /\ PrintT(<<"HWM", ToJson([hwm |-> TLCGet(1), lines |-> Len(Trace)])>>)
-                 /\ TLCGet(1) = Len(Trace) + 1
+TraceAccepted == /\ PrintT(<<"HWM", ToJson([hwm |-> TLCGet(1), lines |-> Len(Log)])>>)
+                 /\ TLCGet(1) = Len(Log) + 1
 =============================================================================
